@@ -12,6 +12,10 @@ import (
 
 // ExecLocal exec local
 func (c *Coins) ExecLocal(tx *types.Transaction, receipt *types.ReceiptData, index int) (dbSet *types.LocalDBSet, err error) {
+	// 与DriverBase.callLocal(ExecDelLocal)保持一致: 执行失败的交易(ExecPack)不更新本地索引
+	if c.CheckReceiptExecOk() && receipt.GetTy() != types.ExecOk {
+		return &types.LocalDBSet{}, nil
+	}
 	dbSet, err = c.execLocal(tx, receipt, index)
 	if err != nil || dbSet == nil { // 不能向上层返回LocalDBSet为nil, 以及error
 		return &types.LocalDBSet{}, nil
